@@ -325,6 +325,7 @@ func (w *World) rebuildShadow() { w.sh.rebuild(w.view) }
 
 // fullSyncStarts notes the state a full synchronisation of the history starts from (C15 judges it when it ends).
 func (w *World) fullSyncStarts(what string) {
+	w.rebuildRunning, w.rebuildClean, w.damagedAtStart = true, true, w.damaged
 	if w.armed("C15") && w.stage == 0 && w.view != nil {
 		if len(w.K.PendingKinds()) > 0 || len(w.initialAdds) > 0 || w.cniPending != nil {
 			// the views lag behind the API: a synchronisation that lists pods through the client (informer not
@@ -452,7 +453,7 @@ func (w *World) judgeEventQuiescence() {
 	// refused ("Too many links") and not followed by a successful one means the whole rebuild of that handler was
 	// dropped - missing policy chains, pod chains that could not be written - even if the pod chains that pinned
 	// the stale chain have been removed since by the same handler
-	if w.d8Active || w.typeConflict || len(staleRefs(o, e)) > 0 {
+	if w.d8Active || w.damaged || w.typeConflict || len(staleRefs(o, e)) > 0 {
 		w.S.Stat("c16.eq-skipped-c15-known")
 		return
 	}
